@@ -305,9 +305,11 @@ package route
 // ---------------------------------------------------------------- route constructors as seen by the command readers
 // They build the route and start its destinations; they do not touch the table (which only receives the result).
 //@ func NewConsistentHashing(key string, matcher matcher.Matcher, destinations []*dest.Destination) (r Route, err error)
-//@   trusted
+//@   property C20,C14
 //@   fresh
-//@   ensures err == nil ==> r != nil
+//@   requires forall j int :: 0 <= j && j < len(destinations) ==> destinations[j] != nil
+//@   ensures[route_as_configured; C20] err == nil && r != nil && typeIs(r, *ConsistentHashing) && as(r, *ConsistentHashing).key == key && isConfType(baseConf(routeBase(r)))
+//@        && confDests(baseConf(routeBase(r))) == destinations && confMatcher(baseConf(routeBase(r))) == matcher
 
 // ---------------------------------------------------------------- pubsub / kafkaMdm / cloudwatch constructors (C14)
 // Parameters that cannot work (a negative buffer, a flush interval of zero) are refused, not accepted and crashed on
